@@ -352,7 +352,11 @@ fn occupied_systems() -> Vec<PairSpec> {
     init.insert(cn.clone(), b"other content committed to this very path".to_vec());
     let o1 = vec![put("f", Exp::HashOf(b"stale".to_vec()), Z), Op::Get { path: cn.clone() }];
     let o2 = vec![put("f", Exp::HashOf(b"stale".to_vec()), Z), put("f", Exp::HashOf(b"stale".to_vec()), Z), Op::Get { path: cn }];
+    let cn2 = format!("f.conflict-{}", short(&h(Z)));
+    let racing = vec![put(&cn2, Exp::Absent, Y)];
     vec![
+        // somebody writes to the very name a concurrent stale write is about to use for its conflict-copy
+        PairSpec { name: "stale Put(f) || Put(its conflict name, expected=absent) on {f:c0}".into(), sys: System { init: init_tree(true), programs: vec![vec![put("f", Exp::HashOf(b"stale".to_vec()), Z)], racing], external: vec![], late: vec![] } },
         PairSpec { name: "stale Put whose conflict name is occupied; Get(name)".into(), sys: System { init: init.clone(), programs: vec![o1.clone()], external: vec![], late: vec![] } },
         PairSpec { name: "two stale Puts whose conflict name is occupied; Get(name)".into(), sys: System { init: init.clone(), programs: vec![o2], external: vec![], late: vec![] } },
         PairSpec { name: "stale Put (occupied conflict name) || Get f".into(), sys: System { init, programs: vec![o1, vec![Op::Get { path: "f".into() }]], external: vec![], late: vec![] } },
@@ -530,8 +534,8 @@ pub fn run(ctx: &Ctx, which: &str) -> ! {
     for (i, spec) in alias_systems().into_iter().enumerate() {
         run_spec(&spec, if thorough || i == 0 { 2 } else { 1 }, false, &mut tot, &mut violations, &mut sample);
     }
-    for spec in occupied_systems() {
-        run_spec(&spec, 1, which == "C10", &mut tot, &mut violations, &mut sample);
+    for (i, spec) in occupied_systems().into_iter().enumerate() {
+        run_spec(&spec, if i == 0 { 2 } else { 1 }, which == "C10" && i != 0, &mut tot, &mut violations, &mut sample);
     }
     // three servers (a lock holder, a waiter queued behind it, and a late arrival) at bound 2
     for spec in triple_systems().into_iter().take(if thorough { 4 } else if which == "C03" && std::env::var("VH_NO_TRIPLE").is_err() { 1 } else { 0 }) {
